@@ -27,6 +27,7 @@ package c06
 
 import (
 	"fmt"
+	"time"
 
 	"gitlab.com/aquachain/aquachain/common"
 	"gitlab.com/aquachain/aquachain/common/log"
@@ -48,8 +49,8 @@ func init() {
 			"A transaction is non-trivial when it was executed and judged; distinct = (template, modes, price, value, gas limit, status, data).",
 		Legs: func(tier string) []fw.Leg {
 			return []fw.Leg{
-				{Name: "eq", Variant: "plain", Batches: 16},
-				{Name: "inv", Variant: "plain", Batches: 16},
+				{Name: "eq", Variant: "plain", Batches: 16, Timeout: 2 * time.Hour},
+				{Name: "inv", Variant: "plain", Batches: 16, Timeout: 2 * time.Hour},
 			}
 		},
 		Run: run,
@@ -114,7 +115,7 @@ func (e *env) chooseCoinbase(r *fw.Rand, num uint64) common.Address {
 	default:
 		var em []common.Address
 		for a, x := range e.model {
-			if x.empty() {
+			if x.empty() && !isPrecompileAddr(a) {
 				em = append(em, a)
 			}
 		}
